@@ -116,7 +116,7 @@ def main():
     o.append("\n## Changes written by independent sub-agents, round 3 (`/verif/seeded3/<id>/`)\n")
     o.append("Same protocol, with both earlier changes described and the request to pick a clause, code path, input class or API entry point neither of them touched.\n")
     o.append(table_seeds("seeded3"))
-    o.append("\n## Changes written by independent sub-agents, round 4 (`/verif/seeded4/<id>/`, ten properties)\n")
+    o.append("\n## Changes written by independent sub-agents, round 4 (`/verif/seeded4/<id>/`)\n")
     o.append("All three earlier changes described; asked for what they left untouched (another entry point, trait impl, input size, builder option, thread placement).\n")
     o.append(table_seeds("seeded4"))
     rb = f"{ROOT}/seeded/ROBUSTNESS.tsv"
